@@ -1178,6 +1178,49 @@ func (s *TxStore) removableTxForRemoveWallet(msgTx *wire.MsgTx, scriptHashSet ma
 	return true, nil
 }
 
+// spendsOtherWalletCoin reports whether an input of msgTx spends an output that belongs to
+// a wallet of this node other than the one identified by scriptHashSet.
+func (s *TxStore) spendsOtherWalletCoin(nsUnmined mwdb.Bucket, msgTx *wire.MsgTx, scriptHashSet map[string]struct{}) (bool, error) {
+	for _, txIn := range msgTx.TxIn {
+		prevHash := &txIn.PreviousOutPoint.Hash
+		prevTx, err := s.chainFetcher.FetchTxBySha(prevHash)
+		if err != nil {
+			return false, err
+		}
+		if prevTx == nil {
+			v, err := existsRawUnmined(nsUnmined, prevHash[:])
+			if err != nil {
+				return false, err
+			}
+			if len(v) == 0 {
+				continue
+			}
+			var prevRec TxRecord
+			if err = readRawUnmined(v, &prevRec); err != nil {
+				return false, err
+			}
+			prevTx = &prevRec.MsgTx
+		}
+		if int(txIn.PreviousOutPoint.Index) >= len(prevTx.TxOut) {
+			continue
+		}
+		ps, err := utils.ParsePkScript(prevTx.TxOut[txIn.PreviousOutPoint.Index].PkScript, s.chainParams)
+		if err != nil {
+			if err == utils.ErrUnsupportedScript {
+				continue
+			}
+			return false, err
+		}
+		if _, ok := scriptHashSet[string(ps.StdScriptAddress())]; ok {
+			continue
+		}
+		if _, err := s.ksmgr.GetManagedAddressByStdAddress(ps.StdEncodeAddress()); err == nil {
+			return true, nil
+		}
+	}
+	return false, nil
+}
+
 func (s *TxStore) checkBlockRecordAfterTxRemoved(nsBlocks mwdb.Bucket, blkDeleted map[uint64]map[wire.Hash]struct{}) error {
 
 	for height, hashes := range blkDeleted {
@@ -1268,6 +1311,15 @@ func (s *TxStore) RemoveRelevantTx(tx mwdb.DBTransaction, addrmgr *keystore.Addr
 		removable, err := s.removableTxForRemoveWallet(&rec.MsgTx, scriptHashSet)
 		if err != nil {
 			return nil, false, err
+		}
+		if removable {
+			// a pending transaction that spends a coin of another wallet of this node is still
+			// that wallet's: it keeps the coin reserved and is the parent of later transactions
+			spends, err := s.spendsOtherWalletCoin(nsUnmined, &rec.MsgTx, scriptHashSet)
+			if err != nil {
+				return nil, false, err
+			}
+			removable = !spends
 		}
 		if removable {
 			err = deleteRawUnmined(nsUnmined, hash[:])
